@@ -166,7 +166,7 @@ def obligations(tier):
             ["P", "F0", "O", "P", "F1", "P"], ["F0", "O", "F1"], ["T", "O", "T"], ["P", "P", "P"], ["F0", "P", "P", "F1", "T"]]
     if True:
         alphabet = ["P", "O", "T"]
-        for k in ((1, 2, 3, 4) if thorough else (1, 2, 3)):
+        for k in ((1, 2, 3, 4, 5) if thorough else (1, 2, 3)):
             for combo in itertools.product(alphabet, repeat=k):
                 if combo.count("P") <= 3:
                     base.append(list(combo))
